@@ -68,24 +68,51 @@ func isTimestampPtr(t types.Type) bool {
 	return ok && n.Obj().Name() == "Timestamp"
 }
 
-func resolvePhis(v ssa.Value) []ssa.Value {
+func resolvePhis(v ssa.Value) []ssa.Value { return resolvePhisX(v, true) }
+
+func resolvePhisOwn(v ssa.Value) []ssa.Value { return resolvePhisX(v, false) }
+
+// resolvePhisX: the values a phi joins; with helpers=true a result of a new helper is replaced by
+// the values its (success) returns yield.
+func resolvePhisX(v ssa.Value, helpers bool) []ssa.Value {
 	seen := map[ssa.Value]bool{}
 	var out []ssa.Value
-	var walk func(v ssa.Value)
-	walk = func(v ssa.Value) {
-		if seen[v] {
+	var walk func(v ssa.Value, d int)
+	walk = func(v ssa.Value, d int) {
+		if seen[v] || d > 12 {
 			return
 		}
 		seen[v] = true
 		if p, ok := v.(*ssa.Phi); ok {
 			for _, e := range p.Edges {
-				walk(e)
+				walk(e, d+1)
 			}
 			return
 		}
+		if helpers {
+			var call *ssa.Call
+			idx := 0
+			switch x := v.(type) {
+			case *ssa.Extract:
+				call, _ = x.Tuple.(*ssa.Call)
+				idx = x.Index
+			case *ssa.Call:
+				if x.Call.Signature().Results().Len() == 1 {
+					call = x
+				}
+			}
+			if call != nil {
+				if vals, ok := helperResults(call, idx); ok {
+					for _, e := range vals {
+						walk(e, d+1)
+					}
+					return
+				}
+			}
+		}
 		out = append(out, v)
 	}
-	walk(v)
+	walk(v, 0)
 	return out
 }
 
@@ -139,7 +166,7 @@ func ruleR11_5(w *World, r *Report) {
 			if isMethod(calleeObj(call), pErrors, "ErrorCode", "New") {
 				continue // an error being constructed, returned as it is
 			}
-			ok2, detail := errorEdgeReturns(fn, ev)
+			ok2, detail := errorEdgeReturns(call.Parent(), ev)
 			r.Check(ok2, cons, u.Pos(call.Pos()), detail, detail)
 		}
 	}
@@ -282,7 +309,7 @@ func ruleR18_6(w *World, r *Report) {
 		return
 	}
 	found := false
-	for _, f := range fin.AnonFuncs {
+	for _, f := range closuresOf(fin) {
 		d := deepOfDepth(f, 1)
 		sends := d.calls("NotifyAfterPushPull")
 		if len(sends) == 0 {
